@@ -744,7 +744,7 @@ def sandbox(kind='main'):
     sb = _SB.get((os.getpid(), kind))
     if sb is None:
         # 'batch': thousands of tiny inputs per second - the warm-up after a fork (~2 s) must not dominate
-        sb = _SB[(os.getpid(), kind)] = Sandbox(max_requests=20000) if kind == 'batch' else Sandbox()
+        sb = _SB[(os.getpid(), kind)] = Sandbox(max_requests=60000) if kind == 'batch' else Sandbox()
     return sb
 
 
@@ -2125,16 +2125,16 @@ def _tail_eval(ctx, fmt, batch, base):
         evaluate_many(ctx, 'apk', apk)
 
 
-def _tail_cap(ctx):
+def _tail_cap(ctx, mode):
     try:
         return float(os.environ['C35_TAIL_CAP_S'])
     except (KeyError, ValueError):
-        return 24.0 if ctx.tier == 'quick' else 150.0
+        return (20.0 if mode == 'sys' else 14.0) if ctx.tier == 'quick' else 150.0
 
 
 def _run_tail(ctx, fmt, mode):
     seeds = build_seeds(fmt, ctx.seed, ctx.tier)
-    cap = _tail_cap(ctx)
+    cap = _tail_cap(ctx, mode)
     sandbox().run(fmt, seeds[0]['data'], budget_for(len(seeds[0]['data'])))
     ctx.__dict__['_c35_t0'] = time.time()
     if fmt == 'dex':
